@@ -268,6 +268,7 @@ class AsyncioTaskGroup:
         # schedules the coroutine; it does not run before the next suspension of the caller
         coro = args[0]
         interp.traces.setdefault("spawned", []).append(coro)
+        interp.traces.setdefault("spawned_ever", []).append(coro)
         _bump_live(interp, 1)
         if "raise_shutdown" in str(getattr(coro, "label", "")):
             obj.fields["raising_children"] = True
@@ -297,6 +298,7 @@ class TrioNursery:
 
     def m_start_soon(self, interp, obj, args, kwargs, fr):
         interp.traces.setdefault("spawned", []).append((args[0],) + tuple(args[1:]))
+        interp.traces.setdefault("spawned_ever", []).append((args[0],) + tuple(args[1:]))
         return None
 
     def m_start(self, interp, obj, args, kwargs, fr):
